@@ -6,7 +6,12 @@ HOOK_COMMITS = ["afa3aa0"]
 # property -> (Lean module, [theorems that decide it]); audited with `#print axioms` on every run
 THEOREMS = {
     "C06": ("TrVerif.Props.C06", ["Tr.C06_totals"]),
+    "C07": ("TrVerif.Props.C07", ["Tr.C07_route_strings", "Tr.C07_accessibility_strings", "Tr.C07_enum_order", "Tr.C07_access"]),
+    "C10": ("TrVerif.Props.C10", ["Tr.C10_alternatives"]),
+    "C11": ("TrVerif.Props.C11", ["Tr.C11_connSet", "Tr.C11_restrict", "Tr.C11_answers", "Tr.C11_route"]),
     "C13": ("TrVerif.Props.C13", ["Tr.C13_history_independent", "Tr.C13_cache_kind_irrelevant", "Tr.C13_structure"]),
+    "C14": ("TrVerif.Props.C14", ["Tr.C14_interleavings", "Tr.C14_progress", "Tr.C14_structure"]),
+    "C18": ("TrVerif.Props.C18", ["Tr.C18_index_safe", "Tr.C18_forward_guard", "Tr.C18_codes_documented", "Tr.C18_defaults", "Tr.C18_update_names"]),
     "C19": ("TrVerif.Props.C19", ["Tr.C19_summary", "Tr.C19_handlers_mirror"]),
 }
 
